@@ -159,6 +159,15 @@ def r2(cx, vc):
         return out
     a = slice_of(wa[0].args[0])
     oka = any(("Range" in ks or "RangeTo" in ks) and fs and not p1 and ix.bb in cfg.after(some) for ks, fs, p1, ix in a)
+    def pair_element(op):
+        """which element of the pair returned by `rsplit_once('/')` the operand is (0 = before the slash, 1 = behind it), or None"""
+        if S.callee.name != "rsplit_once": return None
+        ks = Slice(vc, du, extra_pass=("=to_string", "=to_owned", "=from", "=into", "=as_ref", "=as_str", "=deref", "=borrow"))
+        orig = [(k, o) for k, o in ks.origins(op) if not (k == "arg")]
+        if not orig or not any(k == "call" and o is S for k, o in orig): return None
+        els = {pr[-1] for (l, pr) in ks.last_seen if l == S.dest.l and pr and any(e.startswith("as Some") for e in pr) and pr[-1] in (".0", ".1") and len([e for e in pr if e.startswith(".")]) >= 2}
+        return int(els.pop()[1:]) if len(els) == 1 else None
+    if not oka and pair_element(wa[0].args[0]) == 0: oka = True
     cx.check(oka, "C20.R2", "%s:varlink_call:address-is-prefix" % PKG, "%s varlink_call" % wa[0].sp, "the address handed to Connection::with_address is not url[..n] with n the position of the last slash (%s)" % [(sorted(k), f, p) for k, f, p, _ in a],
              note_ok="address = url[0..n]")
     msl = Slice(vc, du, pass_through=NO_INDEX_PASS + ("=from",))
@@ -170,6 +179,7 @@ def r2(cx, vc):
         fs = any(y.place is not None and any(kk == "call" and oo is S for kk, oo in sl.origins(y)) for x in p1 for y in x.ops)
         m.append((kinds, bool(p1), fs))
     okm = any("RangeFrom" in ks and p1 and fs for ks, p1, fs in m)
+    if not okm and pair_element(mn[0].args[1]) == 1: okm = True
     cx.check(okm, "C20.R2", "%s:varlink_call:method-is-suffix" % PKG, "%s varlink_call" % mn[0].sp, "the method name is not url[n+1..] behind the last slash (%s)" % [(sorted(k), p, f) for k, p, f in m], note_ok="method = url[n+1..]")
     # only the no-dot test may reject between split and connect
     # every place an Err is built (the function's own result or, in the view, the result slot of an inlined helper)
@@ -189,6 +199,11 @@ def r2(cx, vc):
             te, fe = bool_edges(b.term, c)
             dot_edges.append(fe)
     extra = [e for e in rej if not any(cfg.edge_dominates(d, e) for d in dot_edges)]
+    if extra and dot_edges:
+        # the error may be built at a point that other forms of the argument reach as well (one shared `Invalid address`): what counts
+        # is whether it can be reached from the split without taking the no-dot edge
+        free = cfg.after(some, blocked_nodes={wa[0].bb}, blocked_edges={tuple(d) for d in dot_edges})
+        extra = [e for e in extra if e in free]
     cx.check(not extra and bool(dot_edges), "C20.R2", "%s:varlink_call:no-extra-rejection" % PKG, "%s varlink_call" % S.sp,
              "after the split the address can be rejected for a reason other than `method has no dot` (%d extra error exit(s) before connecting): some supported address form (unix path, unix:@abstract, tcp:) stops working" % len(extra),
              note_ok="the only rejection between split and connect is `method has no dot`")
